@@ -33,6 +33,23 @@ func c03Run(ci any) Result {
 	c := ci.(*c03Case)
 	var cur rObs
 	e := rEchoWarm(c.Routes, c.Warm, []rReq{c.Req, {Method: http.MethodOptions, Path: c.Req.Path}, {Method: "X-UNREGISTERED", Path: c.Req.Path}}, &cur)
+	prior := false
+	if (len(c.Req.Path)+len(c.Routes))%2 == 0 {
+		// the pooled context has served a request that reached a handler just before: what that request left
+		// behind (handler, route path, values) must not answer this one
+		k := len(c.Req.Path) % len(c.Routes)
+		if c.Routes[k].Method != routeNotFound {
+			toks, names, _ := rNorm(c.Routes[k].Path)
+			vals := make([]string, len(names))
+			for i := range vals {
+				vals[i] = "v" + wInt(i)
+			}
+			if pp, ok := rInst(toks, vals); ok {
+				rServe(e, &cur, rReq{Method: c.Routes[k].Method, Path: pp})
+				prior = cur.Kind == 'D'
+			}
+		}
+	}
 	rServe(e, &cur, c.Req)
 	first := cur
 	res := Result{
@@ -40,6 +57,9 @@ func c03Run(ci any) Result {
 		Obs: c03Wire(c.Routes, first),
 	}
 	tags := []string{"outcome-" + string(first.Kind)}
+	if prior {
+		tags = append(tags, "after-a-served-request(recycled-context)")
+	}
 	if c.Warm > 0 && c.Warm < len(c.Routes) {
 		tags = append(tags, "requests-before-later-registrations")
 	}
@@ -122,6 +142,17 @@ func c03Run(ci any) Result {
 	case 'D':
 		if c.Routes[first.Hid].Method == routeNotFound {
 			tags = append(tags, "custom-404-route")
+		}
+		// "a request whose path no registered pattern matches is answered 404": a handler must not run for it
+		anyLiberal := false
+		for _, r := range c.Routes {
+			toks, _, _ := rNorm(r.Path)
+			if rMatchLiberal(toks, c.Req.Path) {
+				anyLiberal = true
+			}
+		}
+		if !anyLiberal && !clash {
+			fail(fmt.Sprintf("no registered pattern matches %q but the handler of route %d (%s %q) ran", c.Req.Path, first.Hid, c.Routes[first.Hid].Method, c.Routes[first.Hid].Path))
 		}
 	}
 	res.Tags = tags
